@@ -330,11 +330,13 @@ def generate(repo):
     # ---- Markdown::parse (parsers/markdown.rs): the shapes Model/C02Markdown.v copies; tables for the parts that are lists
     md_src = strip_tests(rd(repo, "harper-core/src/parsers/markdown.rs"))
     b = fn_body(md_src, "parse")
-    flat = re.sub(r"\s+", " ", b)
+    flat = re.sub(r"\s+", " ", re.sub(r"//[^\n]*", "", b))
     if "pulldown_cmark::Options::all() .difference(pulldown_cmark::Options::ENABLE_SMART_PUNCTUATION)" not in flat:
         raise Shape("Markdown::parse: pulldown-cmark options changed")
-    if "for (event, range) in md_parser.into_offset_iter() { if range.start > traversed_bytes { traversed_chars += source_str[traversed_bytes..range.start].chars().count(); traversed_bytes = range.start; }" not in flat:
-        raise Shape("Markdown::parse: the traversed_bytes / traversed_chars advance changed")
+    if "for (event, range) in md_parser.into_offset_iter() { if range.start > traversed_bytes { traversed_chars += source_str[traversed_bytes..range.start].chars().count(); traversed_bytes = range.start; } if let Some(last) = tokens.last() { covered_until = covered_until.max(last.span.end); } if traversed_chars < covered_until && matches!( event, pulldown_cmark::Event::SoftBreak | pulldown_cmark::Event::HardBreak | pulldown_cmark::Event::InlineMath(_) | pulldown_cmark::Event::DisplayMath(_) | pulldown_cmark::Event::Code(_) | pulldown_cmark::Event::Text(_) | pulldown_cmark::Event::Html(_) | pulldown_cmark::Event::InlineHtml(_) ) { continue; } match event {" not in flat:
+        raise Shape("Markdown::parse: the cursor advance / the covered_until guard (8b26ba4) changed")
+    if "let mut covered_until = 0;" not in flat or flat.count("covered_until") != 4:
+        raise Shape("Markdown::parse: covered_until is used differently")
     brk = re.findall(r"Event::(SoftBreak|HardBreak|Start\(pulldown_cmark::Tag::List\(v\)\)) => \{ tokens\.push\(Token \{ span: Span::new_with_len\(traversed_chars, (\d+)\), kind: TokenKind::Newline\((\d+)\), \}\);", flat)
     if [x[0].split("(")[0] for x in brk] != ["SoftBreak", "HardBreak", "Start"]:
         raise Shape("Markdown::parse: SoftBreak / HardBreak / Start(List) arms not recognised: %r" % brk)
@@ -344,9 +346,9 @@ def generate(repo):
     ends = re.findall(r"Event::End\(pulldown_cmark::TagEnd::(\w+)(?:\(_\))?\)", m.group(1))
     if len(ends) != m.group(1).count("Event::End"):
         raise Shape("Markdown::parse: an End(..) pattern not recognised")
-    m = re.search(r"pulldown_cmark::Event::InlineMath\(code\) \| pulldown_cmark::Event::DisplayMath\(code\) \| pulldown_cmark::Event::Code\(code\) => \{ let chunk_len = code\.chars\(\)\.count\(\); tokens\.push\(Token \{ span: Span::new_with_len\(traversed_chars, chunk_len\), kind: TokenKind::Unlintable, \}\); \}", flat)
+    m = re.search(r"pulldown_cmark::Event::InlineMath\(code\) \| pulldown_cmark::Event::DisplayMath\(code\) \| pulldown_cmark::Event::Code\(code\) => \{ let chunk_len = code\.chars\(\)\.count\(\); if chunk_len == 0 \{ continue; \} tokens\.push\(Token \{ span: Span::new_with_len\(traversed_chars, chunk_len\), kind: TokenKind::Unlintable, \}\); \}", flat)
     if not m:
-        raise Shape("Markdown::parse: the Code / InlineMath / DisplayMath arm changed (finding FC02a repaired? then re-model)")
+        raise Shape("Markdown::parse: the Code / InlineMath / DisplayMath arm (with the empty-payload skip of a37d1cc) changed")
     if "pulldown_cmark::Event::Text(text) => { let chunk_len = text .chars() .count() .min(source_str[range.clone()].chars().count()); if chunk_len == 0 { continue; }" not in re.sub(r"//[^\n]*", "", b).replace("\n", " ").replace("  ", " ") and \
        "let chunk_len = text .chars() .count() .min(source_str[range.clone()].chars().count()); if chunk_len == 0 { continue; }" not in re.sub(r"\s+", " ", re.sub(r"//[^\n]*", "", b)):
         raise Shape("Markdown::parse: the clamp of a Text event to its source range (548c418) changed")
